@@ -118,9 +118,7 @@ func main() {
 	reg, _ := json.Marshal(M{"entries": kept, "components": comps})
 	sc.CopyDriver("c03", "driver", "refval")
 	sc.Write("driver/schemas.json", reg)
-	if err := sc.Build("driver", "driver.bin"); err != nil {
-		vf.Fatal("%v", err)
-	}
+	sc.BuildChecked(r, "driver", "driver.bin")
 	replayArg := []string{}
 	if r.Replay != "" {
 		var c struct {
